@@ -189,13 +189,17 @@ theorem sorted_perm_unique_up_to_ties (m : Mdoc) (rows' : List Row) (hp : rows'.
 /-- **the arrangement checker is sound and complete, and an accepted arrangement is a correct sort.** When the driver is told the
 arrangement the implementation chose (`order`: for every row of the new table its position in the old one), `sortByTiltAs` accepts it
 exactly when it names every position once and the rows in that order are ascending; the table it continues from is then a permutation of
-the old one, ascending in the tilt angle — to which `sorted_perm_unique_up_to_ties` applies; header, titles, section id, columns untouched -/
+the old one, ascending in the tilt angle — to which `sorted_perm_unique_up_to_ties` applies; header, titles, section id, columns untouched.
+Third conjunct (round 7): with `reset_z_value=True` the accepted arrangement is renumbered 0, 1, … and nothing else in a row changes -/
 theorem sort_as_spec (m : Mdoc) (o : List Nat) (reset : Bool) :
     ((sortByTiltAs (some o) reset m).isSome ↔
       (o.Perm (List.range m.rows.length) ∧
        (pick m.rows o).Pairwise (fun a b => Row.tiltAt (m.cols.idxOf Gen.C17.sortKey) a ≤ Row.tiltAt (m.cols.idxOf Gen.C17.sortKey) b))) ∧
     (∀ m', sortByTiltAs (some o) false m = some m' →
-      m'.rows = pick m.rows o ∧ m'.rows.Perm m.rows ∧ m'.info = m.info ∧ m'.titles = m.titles ∧ m'.sid = m.sid ∧ m'.cols = m.cols) := by
+      m'.rows = pick m.rows o ∧ m'.rows.Perm m.rows ∧ m'.info = m.info ∧ m'.titles = m.titles ∧ m'.sid = m.sid ∧ m'.cols = m.cols) ∧
+    (∀ m', sortByTiltAs (some o) true m = some m' →
+      m'.rows = renumber (pick m.rows o) ∧ m'.rows.map (fun r => (r.cells, r.removed)) = (pick m.rows o).map (fun r => (r.cells, r.removed)) ∧
+      (pick m.rows o).Perm m.rows ∧ m'.info = m.info ∧ m'.titles = m.titles ∧ m'.sid = m.sid ∧ m'.cols = m.cols) := by
   have hk : ∀ a b : Row, (keyLe (Row.tiltAt (m.cols.idxOf Gen.C17.sortKey)) Gen.C17.sortAscending a b = true) ↔
       Row.tiltAt (m.cols.idxOf Gen.C17.sortKey) a ≤ Row.tiltAt (m.cols.idxOf Gen.C17.sortKey) b := by
     intro a b; simp [keyLe, sort_key_documented.2.1]
@@ -210,6 +214,7 @@ theorem sort_as_spec (m : Mdoc) (o : List Nat) (reset : Bool) :
       simp only [Option.isSome_none, Bool.false_eq_true, false_iff]
       intro hc
       exact h (hiff.mpr ⟨hc.1, hc.2.imp (fun hab => (hk _ _).mpr hab)⟩)
+  refine ⟨?_, ?_⟩
   · intro m' hm
     simp only [sortByTiltAs] at hm
     split at hm
@@ -217,6 +222,23 @@ theorem sort_as_spec (m : Mdoc) (o : List Nat) (reset : Bool) :
       simp only [finishSort, Bool.false_and, Bool.false_eq_true, if_false, Option.some.injEq] at hm
       subst hm
       exact ⟨rfl, pick_perm m.rows o (hiff.mp h).1, rfl, rfl, rfl, rfl⟩
+    · cases hm
+  · intro m' hm
+    simp only [sortByTiltAs] at hm
+    split at hm
+    · rename_i h
+      have hs := reset_hits_section m
+      simp only [finishSort, hs, Bool.not_true, Bool.and_false, Bool.false_eq_true, if_false, if_true, Option.some.injEq] at hm
+      subst hm
+      refine ⟨rfl, ?_, pick_perm m.rows o (hiff.mp h).1, rfl, rfl, rfl, rfl⟩
+      simp only [renumber, List.map_map]
+      generalize pick m.rows o = rows
+      have : ∀ n, List.map ((fun r : Row => (r.cells, r.removed)) ∘ fun p : Row × Nat => { p.1 with z := Nat.toDigits 10 p.2 }) (rows.zipIdx n)
+          = List.map (fun r => (r.cells, r.removed)) rows := by
+        induction rows with
+        | nil => intro n; rfl
+        | cons r rs ih => intro n; simp [List.zipIdx_cons, ih]
+      exact this 0
     · cases hm
 
 /-- without an arrangement `sortByTiltAs` is `sortByTilt`; and `finishSort` is what `sortByTilt` does after sorting -/
@@ -836,7 +858,8 @@ theorem sg_to_em_via_file {α β F : Type} (q : α → β) (write : String → S
 z-shift and constant arguments) as text and turns them into exact rationals with `parseDecimal`. On the class of tokens the generators
 write — an optional '-', a non-empty digit string, optionally '.' and a digit string (`printDecimal`) — the parser returns exactly the
 rational `±i.f` those digits denote (`decVal`, the value the mdoc model computes with): the parser inverts the printer, for every sign
-and all digit strings (leading / trailing zeros, `5.` and integers included). The implementation's number is then required to be the
+and all digit strings (leading / trailing zeros and integers included; `printDecimal` prints no bare `5.` or `.5` — those spellings, `+`
+and exponents are read by the parser too, but only shown on the examples below, not covered by this theorem). The implementation's number is then required to be the
 binary float NEAREST to this rational (float32 / float64), compared exactly by the harness (`_nearest`, probed against `float()` and
 `numpy.float32` on every run) — the rounding itself is the one step left outside Lean. -/
 theorem parse_print_decimal (neg : Bool) (i f : Str) (hi : allDigits i = true) (hf : ∀ c ∈ f, c.isDigit = true) :
@@ -1000,7 +1023,7 @@ theorem defaults_documented : Gen.C17.writeRemovedDefault = false ∧ Gen.C17.wr
 /-- normalised whole-body dumps (docstring dropped, locals renamed to v0, v1, … in binding order, signature included) of the
 functions that have branches the correspondence run never executes (`.xml` / `.csv` / warp / DateTime paths, index files) and of
 the short helpers of `Mdoc`: an added, removed or edited statement changes the digest; renaming a local does not -/
-theorem body_digests_documented : Gen.C17.bodyDigests = [("ioutils.py:tlt_load", "f1a813181975bb3b"), ("ioutils.py:total_dose_load", "c988f324f390f9a5"), ("ioutils.py:defocus_load", "ed98e8f108f7fc82"), ("ioutils.py:indices_load", "911e9762e0258c73"), ("ioutils.py:one_value_per_line_read", "9c168f21992844f6"), ("mdoc.py:Mdoc.__init__", "598807ac4017f061"), ("mdoc.py:Mdoc.remove_image", "bdad76b605305919"), ("mdoc.py:Mdoc.remove_images", "0054452332c8cb73"), ("mdoc.py:Mdoc.kept_images", "60ca13db7754f731"), ("mdoc.py:Mdoc.removed_images", "8c7ce118d7aefa10"), ("mdoc.py:Mdoc.get_image_feature", "748c3b4ab5eed2a2"), ("mdoc.py:remove_images", "3e0771a349297a93"), ("mdoc.py:sort_mdoc_by_tilt_angles", "907075bac05c704b"), ("wedgeutils.py:check_data_consistency", "919fffe59226f242"), ("wedgeutils.py:load_wedge_list_sg", "e5c51b4fa75302c9")] := by decide
+theorem body_digests_documented : Gen.C17.bodyDigests = [("ioutils.py:tlt_load", "f1a813181975bb3b"), ("ioutils.py:total_dose_load", "c988f324f390f9a5"), ("ioutils.py:defocus_load", "ed98e8f108f7fc82"), ("ioutils.py:indices_load", "911e9762e0258c73"), ("ioutils.py:one_value_per_line_read", "9c168f21992844f6"), ("mdoc.py:Mdoc.__init__", "598807ac4017f061"), ("mdoc.py:Mdoc.remove_image", "bdad76b605305919"), ("mdoc.py:Mdoc.remove_images", "0054452332c8cb73"), ("mdoc.py:Mdoc.kept_images", "60ca13db7754f731"), ("mdoc.py:Mdoc.removed_images", "8c7ce118d7aefa10"), ("mdoc.py:Mdoc.get_image_feature", "748c3b4ab5eed2a2"), ("mdoc.py:remove_images", "3e0771a349297a93"), ("mdoc.py:sort_mdoc_by_tilt_angles", "907075bac05c704b"), ("mdoc.py:get_tilt_angles", "57ad7e985d7ec918"), ("ioutils.py:dimensions_load", "b22362e611223afd"), ("ioutils.py:z_shift_load", "4a1218ad96f3f2b0"), ("ioutils.py:imod_com_read", "6b54cdac51146903"), ("wedgeutils.py:check_data_consistency", "919fffe59226f242"), ("wedgeutils.py:load_wedge_list_sg", "e5c51b4fa75302c9")] := by decide
 
 /-- **the extended reader is conservative**: every text the strict model `parseMdoc` reads is read by `parseMdocX` (which follows
 the code on duplicate header keys and on every decimal / exponent TiltAngle spelling) into the same object — so all theorems
